@@ -403,7 +403,9 @@ def run_recipe(pp, R, prog, bake=True, uses_as_list=False, carried=None):
         decl[o['name']] = make_declared(pp, R, o)
         rr.fingerprints.append((f"declared:{o['name']}", decl[o['name']], bench.view(decl[o['name']], pp)))
     if decl:
-        if uses_as_list:
+        if uses_as_list == 'iter':
+            recipe.uses(iter(list(decl.values())))         # any iterable, also a one-shot one
+        elif uses_as_list:
             recipe.uses(list(decl.values()))
         else:
             recipe.uses(*decl.values())
